@@ -74,3 +74,35 @@ Definition expected_sites : list (string * string) := [
  ("agent/conncheck.c", "NICE_COMPONENT_STATE_CONNECTING"); ("agent/conncheck.c", "NICE_COMPONENT_STATE_FAILED");
  ("agent/conncheck.c", "NICE_COMPONENT_STATE_FAILED"); ("agent/conncheck.c", "NICE_COMPONENT_STATE_CONNECTING");
  ("agent/stream.c", "NICE_COMPONENT_STATE_GATHERING")].
+
+(* guards of the call sites, in source order: the text between the previous statement and the call (or the head of the block the call opens) *)
+Definition expected_guards : list string := [
+ "if (component->tcp) {";
+ "if (component->state == NICE_COMPONENT_STATE_DISCONNECTED || component->state == NICE_COMPONENT_STATE_FAILED)";
+ "cket); if (component->selected_pair.local && component->selected_pair.local->sockptr == socket_source->socket && component->state == NICE_COMPONENT_STATE_READY)";
+ "if (component->state < NICE_COMPONENT_STATE_CONNECTING || component->state == NICE_COMPONENT_STATE_FAILED)";
+ "if (component->state < NICE_COMPONENT_STATE_CONNECTED)";
+ "";
+ "if (component->state < NICE_COMPONENT_STATE_CONNECTING || component->state == NICE_COMPONENT_STATE_FAILED)";
+ "if (component->state < NICE_COMPONENT_STATE_CONNECTED)";
+ "";
+ "if (now - pair->remote_consent.last_received > consent_timeout)";
+ "if (completed && nominated == 0 && component != NULL && component->remote_candidates != NULL)";
+ "une_pending_checks (agent, stream, component) == 0) { if (component->state < NICE_COMPONENT_STATE_CONNECTING || component->state == NICE_COMPONENT_STATE_FAILED)";
+ "if (component->state < NICE_COMPONENT_STATE_CONNECTED)";
+ "";
+ "if (pair->valid) { if (component->state == NICE_COMPONENT_STATE_FAILED)";
+ "if (component->state == NICE_COMPONENT_STATE_CONNECTING)";
+ "if (pair) { if (component->state == NICE_COMPONENT_STATE_CONNECTED || component->state == NICE_COMPONENT_STATE_READY) {";
+ "else {";
+ "if (component->state == NICE_COMPONENT_STATE_FAILED)";
+ "else if (component->state == NICE_COMPONENT_STATE_READY)";
+ "if (component->state < NICE_COMPONENT_STATE_CONNECTING || component->state == NICE_COMPONENT_STATE_FAILED)";
+ "if (component->state != NICE_COMPONENT_STATE_READY)";
+ "ALSE; nice_debug ('Agent %p : pair %p lost consent for %u/%u (stream/component)', agent, pair, stream->id, component->id); if (pair->remote_consent.tick_source)";
+ "if (component->state == NICE_COMPONENT_STATE_READY)";
+ "else if (component->state == NICE_COMPONENT_STATE_CONNECTED)";
+ "if (pair_failed) { if (p_count == 0)";
+ "else if (p_nominated == 0) { if (component->state == NICE_COMPONENT_STATE_READY)";
+ "else if (component->state == NICE_COMPONENT_STATE_CONNECTED)";
+ ""].
